@@ -98,7 +98,8 @@ def check_pair(pol, peer, st, family, old_format=False):
 # ---------------------------------------------------------------- families
 def fam_list(field):
     uni = U[field]
-    pol_vals = [None] + seqs(uni, 1, 3 if field != 'kex' else 3)
+    # [''] is the directive written with an empty value ("ciphers = "), which is what --make-policy writes for a peer whose list is empty
+    pol_vals = [None, ['']] + seqs(uni, 1, 3 if field != 'kex' else 3)
     peer_vals = seqs(uni, 0, 3)
     opts = [None]
     if field == 'host_keys':
